@@ -87,6 +87,17 @@ NormDeser(r) ==
                      ser_backrefs |-> r.ser_backrefs, ser_2026 |-> r.ser_2026]
   ELSE [ok |-> FALSE, msg |-> r.msg]
 
+\* the wheel (p) against the Rust core (r); `w` names the entry point in the failure ("" = the native function,
+\* ":serde.py" = the wrappers clvm_rs.serde.deserialize / serialize called with the same options)
+PyVsRust(r, p, w) ==
+  (IF Has(p, "bad") THEN << "py:exception" \o w >> ELSE << >>)
+  \o (IF ~Has(r, "bad") /\ ~Has(p, "bad") /\ r.ok # p.ok THEN << "py=rust:accept" \o w >> ELSE << >>)
+  \o (IF ~Has(r, "bad") /\ ~Has(p, "bad") /\ r.ok /\ p.ok /\ r.tree # p.tree THEN << "py=rust:tree" \o w >> ELSE << >>)
+  \o (IF ~Has(r, "bad") /\ ~Has(p, "bad") /\ r.ok /\ p.ok /\ r.ser_legacy # p.ser_legacy THEN << "py=rust:ser_legacy" \o w >> ELSE << >>)
+  \o (IF ~Has(r, "bad") /\ ~Has(p, "bad") /\ r.ok /\ p.ok /\ r.ser_backrefs # p.ser_backrefs THEN << "py=rust:ser_backrefs" \o w >> ELSE << >>)
+  \o (IF ~Has(r, "bad") /\ ~Has(p, "bad") /\ r.ok /\ p.ok /\ r.ser_2026 # p.ser_2026 THEN << "py=rust:ser_2026" \o w >> ELSE << >>)
+  \o (IF ~Has(r, "bad") /\ ~Has(p, "bad") /\ ~r.ok /\ ~p.ok /\ r.msg # p.msg THEN << "py=rust:msg" \o w >> ELSE << >>)
+
 DeserFails(e) ==
   LET r == NormDeser(e.rust)
       p == NormDeser(e.py)
@@ -94,13 +105,8 @@ DeserFails(e) ==
       d == SpecDeser(e.fn, e.blob, e.max, e.strict)
       t == r.tree
   IN  (IF Has(r, "bad") THEN << "rust:panic" >> ELSE << >>)
-      \o (IF Has(p, "bad") THEN << "py:exception" >> ELSE << >>)
-      \o (IF ~Has(r, "bad") /\ ~Has(p, "bad") /\ r.ok # p.ok THEN << "py=rust:accept" >> ELSE << >>)
-      \o (IF ~Has(r, "bad") /\ ~Has(p, "bad") /\ r.ok /\ p.ok /\ r.tree # p.tree THEN << "py=rust:tree" >> ELSE << >>)
-      \o (IF ~Has(r, "bad") /\ ~Has(p, "bad") /\ r.ok /\ p.ok /\ r.ser_legacy # p.ser_legacy THEN << "py=rust:ser_legacy" >> ELSE << >>)
-      \o (IF ~Has(r, "bad") /\ ~Has(p, "bad") /\ r.ok /\ p.ok /\ r.ser_backrefs # p.ser_backrefs THEN << "py=rust:ser_backrefs" >> ELSE << >>)
-      \o (IF ~Has(r, "bad") /\ ~Has(p, "bad") /\ r.ok /\ p.ok /\ r.ser_2026 # p.ser_2026 THEN << "py=rust:ser_2026" >> ELSE << >>)
-      \o (IF ~Has(r, "bad") /\ ~Has(p, "bad") /\ ~r.ok /\ ~p.ok /\ r.msg # p.msg THEN << "py=rust:msg" >> ELSE << >>)
+      \o PyVsRust(r, p, "")
+      \o (IF Has(e, "pyw") THEN PyVsRust(r, NormDeser(e.pyw), ":serde.py") ELSE << >>)
       \o (IF Has(r, "bad") \/ ~small THEN << >>
           ELSE (IF d.ok # r.ok THEN << "spec:accept" >> ELSE << >>)
             \o (IF d.ok /\ r.ok /\ d.tree # t THEN << "spec:tree" >> ELSE << >>)
